@@ -40,7 +40,9 @@ def gen_tokens(rng):
     if rng.random() < 0.06:
         # a written sharp, later a function definition, and a call of that function: whether the definition is found must not depend on
         # what else is written on its line
-        i = rng.randrange(0, len(toks) + 1); toks.insert(i, rng.choice(["c#", "f#8", "d#", "g#4"]))
+        # (not directly before a token that a note would take as the continuation of its length: `g#4 +c`)
+        ok = [k for k in range(len(toks) + 1) if k == len(toks) or toks[k][:1] not in "+-^.%0123456789"]
+        i = rng.choice(ok); toks.insert(i, rng.choice(["c#", "f#8", "d#", "g#4"]))
         j = rng.randrange(i + 1, len(toks) + 1); toks.insert(j, "FUNCTION FY(){ g }")
         toks.insert(rng.randrange(0, len(toks) + 1), rng.choice(["FY()", "FY();"]))
     return toks
